@@ -312,7 +312,86 @@ def chunks(seq, n):
     return [seq[i : i + n] for i in range(0, len(seq), n)]
 
 
+def part_order(ctx, shard):
+    """resolution must not depend on which prefixed spelling of a symbol was looked up first in a registry: for every
+    prefixable symbol and every ordered pair of prefix symbols, a fresh registry resolves p1+S and then p2+S"""
+    from unyt.unit_registry import UnitRegistry
+
+    for S in shard:
+        for p1, p2 in itertools.permutations(list(PREFIX_SYMS), 2):
+            s1, s2 = p1 + S, p2 + S
+            exp2, _ = expected_units(s2)
+            if len(exp2) != 1:
+                continue  # ambiguous or unreadable strings are judged by the universe part
+            ctx.count("evaluations")
+            reg = UnitRegistry()
+            real(s1, reg)
+            got = real(s2, reg)
+            ctx.decided(("order", S, p1, p2))
+            ctx.outcome(("order", got[0]))
+            exp = unit_of_reading(*exp2[0])
+            if got[0] != "ok" or not same_unit(got, exp):
+                ctx.violation(
+                    f"C14|order|first={p1}|second={p2}|mode=resolution-depends-on-earlier-lookup",
+                    {"part": "order", "symbol": S, "first": s1, "second": s2},
+                    exp[:1],
+                    got[:2],
+                )
+
+
+def collision_candidates():
+    """strings S such that prefix+S is itself a table symbol: registering S must not take that table symbol away"""
+    out = {}
+    for t in default_unit_symbol_lut:
+        for p in PREFIX_SYMS:
+            if t.startswith(p) and len(t) > len(p):
+                rest = t[len(p):]
+                if rest not in default_unit_symbol_lut and rest.isidentifier():
+                    out.setdefault(rest, set()).add(t)
+    return out
+
+
+def part_collide(ctx, shard):
+    from unyt import dimensions as udims
+    from unyt.unit_registry import UnitRegistry
+
+    cands = collision_candidates()
+    for S in shard:
+        for prefixable, then in itertools.product((True, False), ("add", "add+modify", "add+remove")):
+            ctx.count("evaluations")
+            reg = UnitRegistry()
+            try:
+                reg.add(S, 2.0, udims.length, prefixable=prefixable)
+                if then == "add+modify":
+                    reg.modify(S, 3.0)
+                elif then == "add+remove":
+                    reg.remove(S)
+            except Exception as e:  # noqa: BLE001
+                ctx.count("collision_symbol_not_addable")
+                continue
+            for t in sorted(cands[S]):
+                got = real(t, reg)
+                row = default_unit_symbol_lut[t]
+                exp = (float(row[0]), dim_of(row[1]), float(row[2]))
+                ctx.decided(("collide", S, prefixable, then, t))
+                if got[0] != "ok" or not same_unit(got, exp):
+                    ctx.violation(
+                        f"C14|collide|after={then}|prefixable={int(prefixable)}|mode=table-symbol-lost-to-a-user-symbol",
+                        {"part": "collide", "symbol": S, "table_symbol": t, "then": then, "prefixable": prefixable},
+                        exp[:1],
+                        got[:2],
+                    )
+                # aliases and a prefixed form of the table symbol follow it
+                if row[4]:
+                    g2 = real("k" + t, reg)
+                    if g2[0] == "ok" and abs(g2[1] - 1000.0 * exp[0]) > 1e-9 * abs(exp[0]) * 1000:
+                        ctx.violation(f"C14|collide|after={then}|prefixable={int(prefixable)}|mode=prefixed-table-symbol-changed", {"part": "collide", "symbol": S, "table_symbol": "k" + t, "then": then, "prefixable": prefixable}, 1000.0 * exp[0], g2[1])
+
+
 def run(ctx):
+    harness.pmap(ctx, part_order, [[S] for S in sorted(PREFIXABLE)])
+    cands = sorted(collision_candidates())
+    harness.pmap(ctx, part_collide, chunks(cands, 4))
     uni = universe()
     harness.pmap(ctx, part_universe, chunks(uni, 800))
     attrs = sorted(k for k, v in vars(usym).items() if not k.startswith("_") and isinstance(v, Unit))
@@ -344,7 +423,11 @@ def run(ctx):
 
 def replay(case):
     ctx = harness.Ctx(PROPERTY, "quick", 0)
-    if case["part"] == "universe":
+    if case["part"] == "order":
+        part_order(ctx, [case["symbol"]])
+    elif case["part"] == "collide":
+        part_collide(ctx, [case["symbol"]])
+    elif case["part"] == "universe":
         part_universe(ctx, [case["string"]])
     elif case["part"] == "attrs":
         part_attrs(ctx, [case["name"]])
